@@ -114,7 +114,10 @@ func EntryPoints() []EntryPoint {
 		}},
 		{"parser.ParseBytes", func(s string) Outcome { return outcomeTree(parser.ParseBytes([]byte(s))) }},
 		{"parser.Validate", func(s string) Outcome { return outcomeErr(parser.Validate(s)) }},
-		{"parser.ParseBytesWithTokens", func(s string) Outcome { a, _, err := parser.ParseBytesWithTokens([]byte(s)); return outcomeTree(a, err) }},
+		{"parser.ParseBytesWithTokens", func(s string) Outcome {
+			a, _, err := parser.ParseBytesWithTokens([]byte(s))
+			return outcomeTree(a, err)
+		}},
 		{"parser.ParseWithDialect(postgresql)", func(s string) Outcome { return outcomeTree(parser.ParseWithDialect(s, keywords.DialectPostgreSQL)) }},
 		{"Parser.Parse", func(s string) Outcome {
 			return lowLevel(s, nil, func(p *parser.Parser, tk *tokenizer.Tokenizer, s string) (*ast.AST, error) {
@@ -285,9 +288,33 @@ func c07Child(a *ChildArgs) {
 					compareVector(a, seps, f.SQL, "strict")
 				}
 			}
-			for _, s := range []string{"SELECT 1;;", ";;SELECT 1", "SELECT 1;;SELECT 2", "; ; SELECT a FROM t ; ;", "SELECT 1; -- c", "/* c */ SELECT 1"} {
+			for _, s := range []string{"SELECT 1;;", ";;SELECT 1", "SELECT 1;;SELECT 2", "; ; SELECT a FROM t ; ;", "SELECT 1; -- c", "/* c */ SELECT 1",
+				// bytes a file may start or end with
+				"\xef\xbb\xbfSELECT 1", "\xef\xbb\xbfSELECT FROM", "\xef\xbb\xbf", "SELECT 1\x00", "SELECT 1\r\n", "\r\nSELECT 1\r\n;\r\n", "SELECT 1\x1a", "\ufeffSELECT a FROM t", "SELECT 1 \u00a0", "SELECT\u00a01"} {
 				compareVector(a, eps, s, "default")
 				compareVector(a, seps, s, "strict")
+			}
+		}
+		if a.Shard == 1 {
+			// exactly at the limits: every entry point draws the line at the same place
+			mt := tokenizer.MaxTokens
+			atLimit := "SELECT 1" + strings.Repeat(",1", mt/2-1) // exactly mt tokens
+			limitInputs := []string{atLimit + "\n", atLimit + ",1"}
+			if !a.Quick() {
+				limitInputs = append(limitInputs, atLimit, atLimit+" -- c\n", atLimit[:len(atLimit)-2])
+			}
+			for _, s := range limitInputs {
+				a.Rec.Distinct("inputs", fmt.Sprintf("tokens-at-limit/%d", len(s)))
+				compareVector(a, eps, s, "at-token-limit")
+			}
+			ms := tokenizer.MaxInputSize
+			sizeInputs := []string{"SELECT 1" + strings.Repeat(" ", ms-8), "SELECT 1" + strings.Repeat(" ", ms-7)}
+			if !a.Quick() {
+				sizeInputs = append(sizeInputs, strings.Repeat(" ", ms-8)+"SELECT 1", strings.Repeat(" ", ms-7)+"SELECT 1")
+			}
+			for _, s := range sizeInputs {
+				a.Rec.Distinct("inputs", fmt.Sprintf("bytes-at-limit/%d", len(s)))
+				compareVector(a, eps, s, "at-size-limit")
 			}
 		}
 		for i := 0; i < a.N; i++ {
